@@ -51,6 +51,7 @@ type Contract struct {
 	StoreAfter [][2]string // (field, callee pattern): every store to the field is dominated by a call of the callee
 	Guarded    [][2]string // (field, mutex field): the field is accessed only while the mutex is held
 	AssumePre  []string    // callee key patterns whose preconditions are assumed at call sites (trusted)
+	MapRangeCollects bool // syntactic: a loop that ranges over a map calls nothing (it only collects keys/values)
 	NoMapRange bool        // syntactic obligation: the function does not iterate over a map
 	Getter     bool        // result is a function of receiver and arguments only; no effects (trusted)
 	Preserves  []string    // type names whose objects keep their content (used with an unspecified/heap footprint)
@@ -398,7 +399,7 @@ func (p *parser) postfix(e SExpr) SExpr {
 // contract file parsing
 
 var clauseKeywords = map[string]bool{"requires": true, "assumes": true, "ensures": true, "lemma": true, "modifies": true, "loop": true, "at": true,
-	"safe": true, "pure": true, "inline": true, "getter": true, "preserves": true, "no-map-range": true, "assume-pre": true, "guarded": true, "store": true, "end": true, "let": true, "props": true, "trusted": true}
+	"safe": true, "pure": true, "inline": true, "getter": true, "preserves": true, "no-map-range": true, "map-range-collects-only": true, "assume-pre": true, "guarded": true, "store": true, "end": true, "let": true, "props": true, "trusted": true}
 
 // parseContractFile reads every //@ line of a file.
 func (p *Prog) parseContractFile(file string) error {
@@ -612,6 +613,8 @@ func (ct *Contract) addClause(txt, file string, line int) error {
 		ct.HasMod = true
 	case "inline":
 		ct.Inline = true
+	case "map-range-collects-only":
+		ct.MapRangeCollects = true
 	case "no-map-range":
 		ct.NoMapRange = true
 	case "store":
